@@ -16,6 +16,7 @@ N9  a local bound exactly once to a call-free expression over names that are nev
 N10 `t = E` (E may contain calls) directly followed by a statement whose header expression (if-test, return value,
     assigned value, expression statement) reads t exactly once, before any call of that header is made, t being read
     nowhere else: E is substituted there and the binding dropped (evaluation order is unchanged)
+N11 `a, b = X, Y` with as many call-free values as targets, none of which mentions a target  ->  `a = X`, `b = Y`
 N7  (Program level, propagate_constants) a name that resolves to a module-level constant of the package bound exactly
     once to a str/bytes/number/bool/None literal is replaced by that literal, so that a literal and a named
     constant with the same value are the same thing to every rule.
@@ -181,6 +182,20 @@ class _N3456(ast.NodeTransformer):
         return node
 
 
+class _N11(ast.NodeTransformer):
+    def visit_Assign(self, node):
+        if len(node.targets) == 1 and isinstance(node.targets[0], (ast.Tuple, ast.List)) and isinstance(node.value, (ast.Tuple, ast.List)) \
+                and len(node.targets[0].elts) == len(node.value.elts) and all(isinstance(t, ast.Name) for t in node.targets[0].elts) \
+                and all(_pure(v) or isinstance(v, ast.Constant) for v in node.value.elts):
+            names = {t.id for t in node.targets[0].elts}
+            if not any(isinstance(y, ast.Name) and y.id in names for v in node.value.elts for y in ast.walk(v)):
+                out = []
+                for t, v in zip(node.targets[0].elts, node.value.elts):
+                    out.append(ast.copy_location(ast.Assign(targets=[t], value=v), node))
+                return out
+        return node
+
+
 class _N8(ast.NodeTransformer):
     def _split(self, node, make):
         v = node.value
@@ -222,8 +237,12 @@ def _pure(e):
     if isinstance(e, ast.Subscript):
         # an index reads an existing object; a slice builds a new one each time it is evaluated
         return not isinstance(e.slice, ast.Slice) and _pure(e.value) and _pure(e.slice)
-    if isinstance(e, ast.UnaryOp) and isinstance(e.op, ast.USub):
+    if isinstance(e, ast.UnaryOp) and isinstance(e.op, (ast.USub, ast.Not)):
         return _pure(e.operand)
+    if isinstance(e, ast.Compare) and all(isinstance(o, (ast.Is, ast.IsNot)) for o in e.ops):
+        return _pure(e.left) and all(_pure(c) for c in e.comparators)  # identity tests run no user code
+    if isinstance(e, ast.BoolOp):
+        return all(_pure(v) for v in e.values)
     return False
 
 
@@ -451,6 +470,7 @@ def propagate_constants(program):
 
 def normalize(tree):
     tree = _N3456().visit(tree)
+    tree = _N11().visit(tree)
     tree = _N8().visit(tree)
     _n9(tree)
     _n1(tree)
